@@ -49,8 +49,30 @@ pub fn build_unit(u: &Unit) -> Opts {
             3 => P::WithGroupHelp(f.bx(), DocSpec::plain("generated group")),
             4 => P::CustomUsage(f.bx(), DocSpec::plain("CUSTOM")),
             5 => P::HideUsage(f.bx()),
+            7 => {
+                // `.argument(..).adjacent().help(..)`: the help text attached last
+                fn late_help(p: &mut P) {
+                    match p {
+                        P::Arg { names, metavar, .. } => {
+                            *metavar = "ARG_".into();
+                            names.help = Some(DocSpec::plain("help attached after the restriction"));
+                        }
+                        P::Optional(x, _) | P::Many(x, _) | P::Some_(x, _) | P::Fallback(x, _, _) | P::Hide(x) | P::Last(x) => late_help(x),
+                        _ => {}
+                    }
+                }
+                let mut f2 = f;
+                late_help(&mut f2);
+                f2
+            }
             _ => f,
         };
+        if u.wrap == 8 {
+            // a sub-command whose one-letter alias is the argument's short name (typed as a bare
+            // word, it has nothing to do with `-x`)
+            let c = u.level.named[ix].names.shorts.first().copied().unwrap_or('q');
+            fields.push(P::Cmd { name: "build".into(), shorts: vec![c], longs: vec![], inner: Box::new(Opts::new(P::Seq(vec![P::Switch(Names::long("inner"))]))), adjacent: false, help: None }.opt());
+        }
     }
     if u.wrap == 6 {
         o = Opts::new(P::Seq(vec![P::cmd("cmd", o)]));
@@ -59,6 +81,17 @@ pub fn build_unit(u: &Unit) -> Opts {
 }
 /// the line and the expected value as seen through the decoration
 fn through(u_wrap: usize, argv: &[Tok], expected: Out) -> (Vec<Tok>, Out) {
+    if u_wrap == 8 {
+        // the optional sub-command is absent
+        let e = match expected {
+            Out::Ok(Val::T(mut fields)) => {
+                fields.push(Val::No);
+                Out::Ok(Val::T(fields))
+            }
+            o => o,
+        };
+        return (argv.to_vec(), e);
+    }
     if u_wrap != 6 {
         return (argv.to_vec(), expected);
     }
@@ -564,7 +597,7 @@ pub struct Dual {
     pub len: usize,
 }
 
-fn dual_opts(d: &Dual) -> Opts {
+pub fn dual_opts(d: &Dual) -> Opts {
     let names = || Names::both('n', "name");
     let adj = P::Arg { names: names(), ty: Ty::Os, adjacent: true, metavar: "N".into() };
     let plain = P::Arg { names: names(), ty: Ty::Os, adjacent: false, metavar: "N".into() };
@@ -695,9 +728,13 @@ impl Check for C02 {
                         out.push(serde_json::to_value(Unit { level: lb, max_occ: if kind == Kind::ArgMany { 2 } else { 1 }, values: if full { values_full() } else { values_small() }, wrap: 0 }).unwrap());
                         // metadata-only decorations around the argument (every wrapper the
                         // short-name collection has to see through) on the three-item shape
-                        if ty == Ty::Os && (tier == Tier::Thorough || !adjacent) {
-                            for wrap in 1..=6usize {
+                        if ty == Ty::Os {
+                            for wrap in 1..=8usize {
                                 if wrap == 1 && kind != Kind::ArgFallback {
+                                    continue;
+                                }
+                                // the quick tier decorates adjacent arguments only with the late help
+                                if adjacent && tier == Tier::Quick && wrap != 7 {
                                     continue;
                                 }
                                 out.push(serde_json::to_value(Unit { level: la.clone(), max_occ: 2, values: values_small(), wrap }).unwrap());
@@ -799,7 +836,7 @@ impl Check for C02 {
         ctx.s.evaluations += c2.s.evaluations;
     }
     fn rule(&self) -> String {
-        "definitions = {4 name sets incl. 2-, 3- and 4-byte short names and non-ASCII longs} x {OsString, PathBuf, String, u32} x {plain, adjacent} x {required, optional, many, fallback, hidden optional, hidden many} in three shapes (two flags + argument; argument alone; three valued items with short names declared in descending / ascending / mixed order), the three-item shape also with the argument under every metadata-only decoration (displayed fallback, group_help, with_group_help, custom_usage, hide_usage) and below a sub-command; abstract sentences = all sequences of <= max_occ occurrences (flag | argument with each value of the byte-string alphabet); for each sentence EVERY concrete spelling is generated (--n v, --n=v, -n v, -n=v, -nv, every alias, every clustering of adjacent flags, clusters ending in the argument with =/attached/detached value) and run; plus an adjacent group led by a valued item (--x X --y Y) with every mixture of attached and detached values, plus one name declared twice (adjacent many + plain many in both declaration orders; adjacent optional + switch, the documented `--pkg=NAME` / bare `--pkg` idiom) over every vector of the token tree: the adjacent argument takes exactly the one-item spellings wherever they stand; evaluation = one spelling run; non-trivial = sentence with more than one spelling".into()
+        "definitions = {4 name sets incl. 2-, 3- and 4-byte short names and non-ASCII longs} x {OsString, PathBuf, String, u32} x {plain, adjacent} x {required, optional, many, fallback, hidden optional, hidden many} in three shapes (two flags + argument; argument alone; three valued items with short names declared in descending / ascending / mixed order), the three-item shape also with the argument under every metadata-only decoration (displayed fallback, group_help, with_group_help, custom_usage, hide_usage, help attached after the adjacent restriction), below a sub-command, and beside a sub-command whose one-letter alias is the short name of the argument; abstract sentences = all sequences of <= max_occ occurrences (flag | argument with each value of the byte-string alphabet); for each sentence EVERY concrete spelling is generated (--n v, --n=v, -n v, -n=v, -nv, every alias, every clustering of adjacent flags, clusters ending in the argument with =/attached/detached value) and run; plus an adjacent group led by a valued item (--x X --y Y) with every mixture of attached and detached values, plus one name declared twice (adjacent many + plain many in both declaration orders; adjacent optional + switch, the documented `--pkg=NAME` / bare `--pkg` idiom) over every vector of the token tree: the adjacent argument takes exactly the one-item spellings wherever they stand; evaluation = one spelling run; non-trivial = sentence with more than one spelling".into()
     }
     fn bounds(&self, tier: Tier) -> Value {
         json!({"occurrences_per_sentence": "<=3 (<=2 for the lone repeated argument)", "values": tier.pick("6 values (14 for OsString lone argument)", "14 values everywhere"), "value_alphabet": values_full()})
